@@ -53,7 +53,16 @@ def has_var_free_operand(f):
         any(s[0] == 'const' for s in F.subterms(f))
 
 
-def check(case):
+KNOWN_EARLY_START = 'start-before-domain:bounded-operator-with-t0>0'
+
+
+def check_shifted_bounded(case):
+    """Signals that start at t0 > 0 under bounded operators: the values on the domain are compared as everywhere; a result
+    that begins before t0 is the open finding KNOWN_EARLY_START (the suite pins it: test_once_bounded_3)."""
+    return check(case, early_start_is_known=True)
+
+
+def check(case, early_start_is_known=False):
     f = from_json(case['formula'])
     vs = list(case['vars'])
     q = case_q(case)
@@ -85,8 +94,12 @@ def check(case):
     if msg:
         return FAIL('shape', desc + '\n' + msg + '\nresult: %r' % (out,), labels)
     t0 = float(K0 * q)
+    early = False
     if not out or out[0][0] != t0:
-        return FAIL('start:' + attribute(f, sig, q), desc + '\nresult does not start at the beginning of the domain (%g): %r' % (t0, out[:3]), labels)
+        if early_start_is_known and out and out[0][0] < t0 and any(s[0] in ('tun', 'tbin') for s in F.subterms(f)):
+            early = True          # reported below, after the values on the domain have been compared
+        else:
+            return FAIL('start:' + attribute(f, sig, q), desc + '\nresult does not start at the beginning of the domain (%g): %r' % (t0, out[:3]), labels)
     bad = compare_ct(out, K0, Kend, ref, q, needs_tolerance(f))
     if bad:
         return FAIL('mismatch:' + attribute(f, sig, q), desc + '\nresult: %r\nat t=%g rtamt gives %r, reference %r\nreference cells from %d: %s' % (
@@ -95,6 +108,9 @@ def check(case):
     nontrivial = F.n_temporal(f) >= 1 and ((len(sig) >= 2 and unaligned(sig)) or bounded)
     if unaligned(sig):
         labels.append('unaligned')
+    if early:
+        return FAIL(KNOWN_EARLY_START, desc + '\nthe values on the domain [%g, %g] agree with the reference, but the result starts at %g, before the beginning of the common input domain (%g): %r' % (
+            t0, float(Kend * q), out[0][0], t0, out[:3]), labels + ['early-start'], nontrivial=nontrivial)
     return PASS(nontrivial, labels)
 
 
@@ -244,6 +260,8 @@ LANES = [
     # starts at 0 (test_once_bounded_3), the property text says "starts at the beginning of the common input domain":
     # the two readings disagree, so that class is avoided rather than guessed (DESIGN.md, Corrections).
     Lane('shifted', lambda tier: ct_cases(_profile(tier, tun=(), tbin=()), tier, shifted=True), check, 1000, 15000, ct_candidates),
+    # t0 > 0 under bounded operators: values on the domain are checked; the early start is the open finding of KNOWN_FINDINGS.txt
+    Lane('shifted_bounded', lambda tier: ct_cases(_profile(tier, max_depth=3), tier, shifted=True), check_shifted_bounded, 1000, 15000, ct_candidates),
     Lane('long', lambda tier: ct_cases(_profile(tier, max_bound=24), tier, max_samples=4), check, 1000, 15000, ct_candidates),
     Lane('arith', lambda tier: ct_cases(_profile(tier, un_temp=(), bin_temp=(), tun=(), tbin=(), nvars=3, max_depth=4), tier), check, 800, 10000, ct_candidates),
 ]
